@@ -57,7 +57,7 @@ def main():
         if not ok:
             proofs_ok = False
             b.log += '\n' + tlog
-    bad = core.audit_sources()
+    bad = core.audit_sources(_closure_sources(pid)) if pid != 'ALL' else core.audit_sources()
     if bad:
         violations.append(core.Violation('audit', 'forbidden declaration in the Coq development: ' + '; '.join(bad),
                                          {'found': bad}, signature='audit', found_input=False))
@@ -89,6 +89,41 @@ def main():
     core.log(f'[{pid}] {tier} done in {time.time()-t0:.1f}s rc={rc} '
              f'theorems={len(theorems)} evaluations={coverage.get("evaluations")}')
     return rc
+
+
+def _closure(pid):
+    dep = os.path.join(core.COQ, '.Makefile.d')
+    with open(dep) as f:
+        txt = f.read().replace('\\\n', ' ')
+    deps = {}
+    for line in txt.splitlines():
+        if ':' not in line:
+            continue
+        lhs, rhs = line.split(':', 1)
+        for t in lhs.split():
+            if t.endswith('.vo'):
+                deps.setdefault(t, set()).update(x for x in rhs.split() if x.endswith('.vo') or x.endswith('.v'))
+    seen, todo = set(), [f'Properties/{pid}.vo']
+    while todo:
+        t = todo.pop()
+        if t in seen:
+            continue
+        seen.add(t)
+        todo.extend(deps.get(t, ()))
+    return seen
+
+
+def _closure_sources(pid):
+    """The .v files of the development that Properties/<pid>.v depends on (incl. itself)."""
+    try:
+        seen = _closure(pid)
+    except OSError:
+        return None
+    out = []
+    for t in sorted(seen):
+        if t.endswith('.vo') and not t.startswith('/') and os.path.exists(os.path.join(core.COQ, t[:-1])):
+            out.append(t[:-1])
+    return out or None
 
 
 def _depends_on_failed(pid, b):
